@@ -122,7 +122,7 @@ func runMapping(c *kit.Ctx, now int64, reason v1.DisruptionReason, pools []jPool
 func partMapping(c *kit.Ctx) {
 	n := 60
 	if c.Thorough() {
-		n = 600
+		n = 300
 	}
 	for i := 0; i < n; i++ {
 		r := c.Rand.Fork()
